@@ -21,7 +21,7 @@ the first page to the empty token.
 Clauses of the property text and where they are: "precisely the matching events … in chain order …
 tagged with block, transaction and position" — `naive_spec`, `naive_in_chain_order`, `events_exact`
 (positions; the block HASH and transaction HASH tags are checked by the harness only, `checkTag`);
-"plus pre-confirmed blocks when asked" — `paging_complete_preconfirmed`, `events_exact_preconfirmed`,
+"plus pre-confirmed blocks when asked" — `paging_complete_preconfirmed`, `token_progress_preconfirmed`, `events_exact_preconfirmed`,
 `preconfirmed_ignored_below_head`; "same list for every chunk size and scan limit" — ∀ chunk ≥ 1,
 limit in `events_exact` (chunk ≥ 1 is what `validate:"min=1"` guarantees at the RPC boundary; the
 harness sends requests through the real jsonrpc server and validator); "not omitted because of the
@@ -192,6 +192,65 @@ theorem token_progress (cfg : Cfg) (hW : 1 ≤ cfg.W) (n : Node) (f : Filter) (f
         · rcases hprog with h | h
           · exact Or.inr h
           · exact Or.inl (h (by omega)).1
+
+/-- **token_progress with pre-confirmed blocks**: one page of a query that reaches above the head,
+on a node whose index has no false negatives, from the first page or from a token the previous page
+returned (`ValidPre`): it does not fail, returns at most `chunk` events, and either its token is empty
+and it returned everything that was left (canonical blocks up to `base`, then the pre-confirmed
+copies), or the token is not empty, lies in the range, moves strictly forward (later block, or same
+block with more events processed and at least one event returned), and what was returned followed by
+what is left from the token is what was left before. -/
+theorem token_progress_preconfirmed (cfg : Cfg) (hW : 1 ≤ cfg.W) (n : Node) (f : Filter)
+    (fromB toB chunk limit base : Nat) (tok : Option Token) (hchunk : 1 ≤ chunk) (hne : n.chain ≠ [])
+    (hnf : NoFalseNeg cfg n) (hbase : base ≤ n.chain.length - 1)
+    (hto : toB = sentinel ∨ n.chain.length - 1 < toB)
+    (hfl : startOf fromB tok ≤ base → n.floor ≤ startOf fromB tok)
+    (pre : List Block) (hpre : pre ≠ []) (hpwf : ∀ blk ∈ pre, ∀ it ∈ blk.items, it ∈ blk.bloom)
+    (hfit : n.chain.length - 1 + pre.length < sentinel)
+    (hv : ValidPre f (n.chain.take (base + 1) ++ pre) fromB toB (base + pre.length) tok) :
+    let full := n.chain.take (base + 1) ++ pre
+    let lo := loOf fromB tok (base + pre.length)
+    let hi := min toB (base + pre.length)
+    let left := fun (b p : Nat) => wantN f full b (hi + 1 - b) p
+    ∃ evs t, (apiEventsPre cfg n f fromB toB tok chunk limit base pre).2 = .ok evs t ∧ evs.length ≤ chunk ∧
+      ((t = Token.none ∧ evs = left lo (skipOf tok)) ∨
+       (t.isEmpty = false ∧ evs ++ left t.b t.p = left lo (skipOf tok) ∧ lo ≤ t.b ∧ t.b ≤ hi ∧
+        (lo < t.b ∨ (evs ≠ [] ∧ skipOf tok < t.p)))) := by
+  intro full lo hi left
+  obtain ⟨hwf, hs, hc, _⟩ := hnf
+  have hlen : n.chain.length = (n.chain.length - 1) + 1 := by
+    cases hc' : n.chain with
+    | nil => exact absurd hc' hne
+    | cons _ _ => simp
+  have hB0 : (toB != sentinel && decide (toB ≤ n.chain.length - 1)) = false := by
+    simp only [Bool.and_eq_false_iff, bne_eq_false_iff_eq, decide_eq_false_iff_not]
+    rcases hto with h | h
+    · exact Or.inl h
+    · exact Or.inr (by omega)
+  obtain ⟨hpost, _⟩ := eventsPre_spec cfg n f fromB toB tok chunk limit base (n.chain.length - 1) pre hW hchunk hlen hbase hB0 hpre
+    hfit hwf hpwf (hs.mono hbase) hc hfl hv
+  simp only [apiEventsPre, wake_live cfg n hs.live, queryPre]
+  revert hpost
+  cases hr : (eventsPre cfg n f fromB toB tok chunk limit base pre).1 with
+  | err e => simp [WinPost]
+  | ok evs t =>
+    simp only [WinPost, List.nil_append, List.length_nil]
+    intro hpost
+    refine ⟨evs, t, rfl, ?_, ?_⟩
+    · rcases hpost with ⟨_, _, h⟩ | ⟨_, _, _, _, _, _, h, _⟩ <;> exact h
+    · rcases hpost with ⟨ht, hA, _⟩ | ⟨h1, h2, X, hX, hXw, _, _, hp⟩
+      · exact Or.inl ⟨ht, hA⟩
+      · have hprog := hp (by omega)
+        subst hX
+        have hprog' : lo < t.b ∨ (evs ≠ [] ∧ skipOf tok < t.p) := by
+          rcases hprog with h | h
+          · exact Or.inl h
+          · exact Or.inr (h (by omega))
+        refine Or.inr ⟨?_, hXw, h1, h2, hprog'⟩
+        simp only [Token.isEmpty, Bool.and_eq_false_iff, beq_eq_false_iff_ne]
+        rcases hprog' with h | h
+        · left; omega
+        · right; omega
 
 /-- When the range ends at a canonical block the pre-confirmed chain plays no role: the page is
 the page of the plain query (so `paging_complete`, `page_sound`, `pruned_start_rejected` apply). -/
@@ -371,7 +430,10 @@ theorem pruned_start_rejected_preconfirmed (cfg : Cfg) (n : Node) (f : Filter) (
       simp only [Bool.and_eq_true, decide_eq_true_eq]; exact ⟨h1, h2⟩
     simp [hemp, hB0, this]
 
-/-! ## Open finding: a pruned database opened without `--prune-mode` -/
+/-! ## Repaired finding (56f2a2e): a pruned database opened without `--prune-mode`
+
+`blockchain.New` now defaults to the floor-aware initialiser; `core.InitializeRunningEventFilter` (the
+model's `restartCore`) still exists and still behaves as shown here when it is wired explicitly. -/
 
 def cfgRepaired : Cfg := ⟨3, 2, true, true, true, true⟩
 def blkE : Block := ⟨[], []⟩
@@ -455,5 +517,13 @@ example :
     collectPre cfgRepaired fB 0 sentinel 1 0 0 pre 10 n none = some (naive fB (n.chain.take 1 ++ pre) 0 3) ∧
     naive fB (n.chain.take 1 ++ pre) 0 3 = [⟨1, 0, 0, ⟨11, [7]⟩⟩, ⟨3, 0, 0, ⟨11, [7]⟩⟩] := by
   decide
+
+-- token_progress_preconfirmed: a token inside a pre-confirmed block (one event of two already returned)
+example :
+    let n := run cfgRepaired Node.init [.store blkE, .store blkB]
+    let pre : List Block := [⟨[[⟨11, [7]⟩, ⟨11, [7]⟩]], [.addr 11, .key 0 7]⟩, blkB]
+    ValidPre fB (n.chain.take 2 ++ pre) 0 sentinel 3 (some ⟨2, 1⟩) ∧
+    (apiEventsPre cfgRepaired n fB 0 sentinel (some ⟨2, 1⟩) 1 0 1 pre).2 = .ok [⟨2, 0, 1, ⟨11, [7]⟩⟩] ⟨3, 0⟩ := by
+  refine ⟨Or.inr ⟨?_, ?_, ?_⟩, ?_⟩ <;> decide
 
 end Juno.C09.Props
